@@ -525,7 +525,14 @@ def effects_of_event(canon, ev):
             if isinstance(n, ast.Call) and isinstance(n.func, ast.Attribute) and \
                     n.func.attr in MUTATORS:
                 arg = canon.c(n.args[0], fr) if n.args else None
-                out.append(Effect(n.func.attr, canon.c(n.func.value, fr), arg, n, ev,
+                recv = n.func.value
+                loc = canon.c(recv, fr)
+                # a mutator applied to a call result / copy idiom changes a temporary,
+                # not the location the copy was taken from
+                if isinstance(recv, (ast.Call, ast.ListComp, ast.List, ast.Dict, ast.Set)) or \
+                        copy_source(recv) is not None:
+                    loc = '<copy of %s>' % loc
+                out.append(Effect(n.func.attr, loc, arg, n, ev,
                                   n.args[0] if n.args else None))
     return out
 
